@@ -54,6 +54,7 @@ def _serve_conn(conn, sock, deadline):
                     _drain(sock, deadline)
                     return
                 if head is RST:
+                    time.sleep(0.15)     # let what was sent before reach (and be read by) the tool: an abortive close may discard undelivered data
                     sock.setsockopt(socket.SOL_SOCKET, socket.SO_LINGER, struct.pack('ii', 1, 0))
                     sock.close()
                     return
